@@ -167,6 +167,24 @@ Lemma send_syserr_core st id full :
   calls (fst (conn_send_syserr st id full)) = calls st.
 Proof. unfold conn_send_syserr. destruct (cst st) eqn:E, full; cbn; auto. Qed.
 
+Lemma drain_hclose st id c fullfrag st' :
+  drainJ st -> get id (calls st) = Some c -> h_pc c = PIdle -> hclose st id c fullfrag = Some st' -> drainJ st'.
+Proof.
+  intros J G Hpc H. unfold hclose in H.
+    destruct (f_err c).
+    { apply Some_inj in H; subst st'. eapply drain_commit; [exact J | exact G | condtac Hpc]. }
+    destruct (f_state c).
+    + apply Some_inj in H; subst st'. eapply drain_commit; [exact J | exact G | condtac Hpc].
+    + destruct (negb fullfrag).
+      * apply Some_inj in H; subst st'. eapply drain_commit; [exact J | exact G | condtac Hpc].
+      * destruct (negb (f_cur (upd_f c FWaiting false (f_cur c) (f_first c)))); [discriminate|].
+        apply Some_inj in H; subst st'. apply drain_flush1_upd; assumption.
+    + destruct (negb (f_cur c)); [discriminate|].
+      apply Some_inj in H; subst st'. apply drain_flush1_upd; assumption.
+    + apply Some_inj in H; subst st'. eapply drain_commit; [exact J | exact G | condtac Hpc].
+    + apply Some_inj in H; subst st'. eapply drain_commit; [exact J | exact G | condtac Hpc].
+Qed.
+
 Lemma drain_hstep st id c l st' :
   drainJ st -> get id (calls st) = Some c -> hstep st id c l = Some st' -> drainJ st'.
 Proof.
@@ -210,18 +228,7 @@ Proof.
       eapply drain_commit; [exact J | exact G | condtac Hpc].
     + apply Some_inj in H; subst st'. eapply drain_commit; [exact J | exact G | condtac Hpc].
   - (* HClose *)
-    destruct (f_err c).
-    { apply Some_inj in H; subst st'. eapply drain_commit; [exact J | exact G | condtac Hpc]. }
-    destruct (f_state c).
-    + apply Some_inj in H; subst st'. eapply drain_commit; [exact J | exact G | condtac Hpc].
-    + destruct (negb fullfrag).
-      * apply Some_inj in H; subst st'. eapply drain_commit; [exact J | exact G | condtac Hpc].
-      * destruct (negb (f_cur (upd_f c FWaiting false (f_cur c) (f_first c)))); [discriminate|].
-        apply Some_inj in H; subst st'. apply drain_flush1_upd; assumption.
-    + destruct (negb (f_cur c)); [discriminate|].
-      apply Some_inj in H; subst st'. apply drain_flush1_upd; assumption.
-    + apply Some_inj in H; subst st'. eapply drain_commit; [exact J | exact G | condtac Hpc].
-    + apply Some_inj in H; subst st'. eapply drain_commit; [exact J | exact G | condtac Hpc].
+    eapply drain_hclose; eassumption.
   - (* HDone *)
     destruct (done_sending c) as [c1 chk] eqn:Ds. apply Some_inj in H; subst st'.
     eapply drain_commit; [exact J | exact G|]. destruct (f_err c1); condtac Hpc.
@@ -245,6 +252,10 @@ Proof.
       (eapply drain_commit; [exact J | exact G | condtac Hpc]).
   - (* HBlackhole *)
     apply Some_inj in H; subst st'. eapply drain_commit; [exact J | exact G | condtac Hpc].
+  - (* HHelperWrite *)
+    rewrite helper_closes_eq in H. destruct ok.
+    + eapply drain_hclose; eassumption.
+    + apply Some_inj in H; subst st'. eapply drain_commit; [exact J | exact G | condtac Hpc].
 Qed.
 
 Lemma drain_not_closing st : ~ closing (cst st) -> drainJ st.
@@ -440,7 +451,7 @@ Qed.
 
 Lemma ext_hstep st id c l st' : hstep st id c l = Some st' -> ext st st'.
 Proof.
-  unfold hstep. intros H.
+  unfold hstep, hclose. intros H.
   destruct l; destruct (h_pc c); try discriminate;
     repeat match type of H with
            | Some _ = Some _ => apply Some_inj in H; subst st'
